@@ -1949,6 +1949,13 @@ def sort_tables_and_constraints(
                     dependent_on = fkc.referred_table
                     if dependent_on is not table:
                         mutable_dependencies.discard((dependent_on, table))
+                # constraints that remain inline keep their ordering
+                for fkc in table.foreign_key_constraints.difference(
+                    remaining_fkcs
+                ):
+                    dependent_on = fkc.referred_table
+                    if dependent_on is not table:
+                        mutable_dependencies.add((dependent_on, table))
         candidate_sort = list(
             topological.sort(
                 fixed_dependencies.union(mutable_dependencies),
